@@ -32,6 +32,34 @@ pub const TEMPLATES: &[(&str, &str)] = &[
     ("failure-midway", "(define (f n) (if (= n 0) (car '()) (cons n (f (- n 1))))) (f 6) (list 'after (length (list 1 2 3)))"),
     ("for-each-closure-state", "(define (make-counter) (let ((n 0)) (lambda () (set! n (+ n 1)) n))) (define c1 (make-counter)) (define c2 (make-counter)) (for-each (lambda (x) (c1)) '(1 2 3)) (list (c1) (c2))"),
     ("vararg-apply", "(define (va a . r) (list a r)) (list (va 1) (va 1 2 3) (apply va 1 2 '(3 4)) (apply va '(9)))"),
+    // heap-allocated operands evaluated before a call/cc are live only through the continuation's saved stack
+    // once the first pass's result is dropped; the continuation is re-entered from later forms
+    ("continuation-holds-operands", "(define k4 #f) (define out4 '()) (define n4 0) (set! out4 (cons (list 'a 'b 'c) (call/cc (lambda (c) (set! k4 c) 0)))) out4 (set! out4 #f) (set! n4 (+ n4 1)) (if (< n4 3) (k4 n4) 'done) out4 (set! out4 (list (string-append \"x\" \"y\") (vector 1 (list 2)) (call/cc (lambda (c) (set! k4 c) 0)) (list 'after))) (set! out4 #f) (set! n4 10) (k4 7) out4"),
+    ("continuation-holds-let-operands", "(define k5 #f) (define r5 #f) (define (keep5) (let ((a (list 1 2)) (b (call/cc (lambda (c) (set! k5 c) 0))) (c (vector 'v))) (list a b c))) (set! r5 (keep5)) r5 (set! r5 #f) (if (not r5) (begin (set! r5 'again) (k5 5)) r5) (apply list (list 'p) (call/cc (lambda (c) (set! k5 c) 1)) (list (list 'q))) (set! r5 #f) (if (not r5) (begin (set! r5 'again2) (k5 6)) r5)"),
+    // constants of compiled code are live as long as the code is: literal tails of dotted quasiquote templates,
+    // quoted structures, strings, vectors and symbols that occur nowhere else; the procedures run in later forms
+    ("code-constants", "(define (qq1 x) `(,x . \"kept-tail\")) (define (qq2 x) `(,x . only-here-tail)) (define (qq3 x y) `(,x ,y . #(1 (2)))) (define (qq4 x) `(a (c . only-here-d) ,x)) (define (q5) '(only-here-q \"s\" #(v (w)) 1.5 123456789012345678901234567890 2/3)) (define (q6) (vector \"lit\" 'only-here-v #\\x)) (list 'first) (qq1 1) (qq2 2) (qq3 3 4) (qq4 5) (q5) (q6) (list (qq1 6) (qq2 7) (qq3 8 9) (qq4 10) (q5) (q6))"),
+    // a procedure that tail-calls itself while closures created in earlier iterations are still alive
+    ("self-tail-call-closures", "(define (collect i acc) (if (= i 4) acc (collect (+ i 1) (cons (lambda () (list i (length acc))) acc)))) (map (lambda (t) (t)) (collect 0 '())) (define (collect2 i acc) (define sq (* i i)) (if (= i 3) acc (collect2 (+ i 1) (cons (delay (list i sq)) acc)))) (map force (collect2 0 '()))"),
+    // code that is running but no longer referenced by any binding: only the instruction pointer and saved frames hold it
+    ("self-redefinition", "(define (selfkill n) (set! selfkill #f) (let lp ((i 0) (acc '())) (if (< i n) (lp (+ i 1) (cons (list i \"s\") acc)) (list 'done acc)))) (selfkill 4) selfkill (define (mk-once) (lambda (x) (set! once #f) (list x (vector x \"t\")))) (define once (mk-once)) (once 1) once"),
+    // a rest-argument list and apply's spread arguments exist only on the stack / in the callee's environment
+    ("rest-arguments", "(define (rest-len . r) (if (null? r) 0 (+ 1 (apply rest-len (cdr r))))) (rest-len 1 (list 2) \"3\" (vector 4)) (apply rest-len (list (list 1) (list 2) (list 3))) ((lambda (a . r) (list a (reverse r))) (list 1) (list 2) (list 3))"),
+    // a ring of the newest continuations: older ones, and everything only they reach, must be reclaimable
+    ("continuation-ring", "(define ring (make-vector 3 #f)) (define (cap i) (call/cc (lambda (c) (vector-set! ring (modulo i 3) c) i))) (let lp ((i 0) (acc 0)) (if (< i 9) (lp (+ i 1) (+ acc (cap i))) acc))"),
+];
+
+/// Programs of tens of thousands of instructions: explored under the periodic schedules scaled to about 2000
+/// collections per run (see `explore`), and by C13 under a few large budgets.
+/// TEMPLATES followed by LONG_TEMPLATES.
+pub fn all_templates() -> Vec<(&'static str, &'static str)> {
+    TEMPLATES.iter().chain(LONG_TEMPLATES.iter()).cloned().collect()
+}
+
+pub const LONG_TEMPLATES: &[(&str, &str)] = &[
+    // the heap outgrows its first chunk while the list is being built; the list is then live only through cells of
+    // both chunks, across further collections
+    ("heap-growth", "(define (iota-list n) (let lp ((i n) (acc '())) (if (= i 0) acc (lp (- i 1) (cons i acc))))) (define ballast (iota-list 3300)) (define (churn n) (if (= n 0) 'ok (begin (list n n n) (churn (- n 1))))) (churn 200) (apply + ballast) (define ballast2 (iota-list 1500)) (churn 200) (list (length ballast) (apply + ballast2))"),
 ];
 
 pub fn schedule_json(s: &GcSchedule) -> serde_json::Value {
@@ -83,7 +111,10 @@ pub fn explore(acc: &mut Acc, im: &mut Impl, name: &str, session_text: &str, for
         return false;
     }
     let n = base.instructions;
-    let mut scheds: Vec<GcSchedule> = b.periodic.iter().map(|(k, ph)| GcSchedule::Every { k: *k, phase: *ph }).collect();
+    // a program of more than 20 000 instructions gets the same periodic schedules stretched so that a run has about
+    // 2000 collections (each collection and audit is linear in the heap)
+    let scale = if n > 20_000 { n / 2000 } else { 1 };
+    let mut scheds: Vec<GcSchedule> = b.periodic.iter().map(|(k, ph)| GcSchedule::Every { k: *k * scale, phase: *ph * scale }).collect();
     if n <= b.s1_max_n {
         for i in 0..n {
             scheds.push(GcSchedule::At(vec![i]));
@@ -173,12 +204,13 @@ pub fn run(ctx: &Ctx) -> i32 {
     let b = bounds(ctx.tier);
     let mut acc = Acc::new();
     // (a) templates
+    let all = all_templates();
     let a = par_fold(
-        TEMPLATES.len() as u64,
+        all.len() as u64,
         1,
         || St { im: None, used: 0 },
         |st, acc, i| {
-            let (name, text) = TEMPLATES[i as usize];
+            let (name, text) = all[i as usize];
             let forms = parse_forms(text).expect("template parses");
             let b = bounds(ctx.tier);
             let im = vm_for(st);
@@ -296,7 +328,7 @@ pub fn run(ctx: &Ctx) -> i32 {
     rep.traces_validated = Some(acc.evals);
     rep.rule = format!(
         "Programs: {} allocation-heavy templates, every C01 chain program of depth <= {}{}, {} C02 scope skeletons, {} C05 call/cc programs. For each program with N instruction boundaries (measured on the undisturbed run) the real VM is re-run under every schedule of: periodic {:?} (k, phase; plus a collection between top-level forms), S1 = exactly one forced collection at boundary i for every i < N when N <= {}, S2 = every pair i < j when N <= {}. A forced collection runs the real run_gc (root enumeration, marker, sweeper) - only the utilisation test is overridden. Oracles on every execution: results, failures and display/write output equal the undisturbed run; after every collection an independent reachability traversal finds no reachable cell reclaimed (I1), no unreachable cell allocated (I2), a consistent free list and collector map (I3) and a bijective symbol table (I4). states = audited post-collection heap states, transitions = instructions executed under exploration. Non-trivial = a program under which at least one forced collection actually ran.",
-        TEMPLATES.len(), chain_depth, if ctx.tier == Tier::Quick { " (every 7th depth-2 chain under F1 only)" } else { "" },
+        all.len(), chain_depth, if ctx.tier == Tier::Quick { " (every 7th depth-2 chain under F1 only)" } else { "" },
         skel.len(), c5.len(), b.periodic, b.s1_max_n, b.s2_max_n
     );
     rep.assumptions.push("collections are forced only where natural ones can occur (between two instructions of run_count, and between evaluations), so every explored schedule is a behaviour of the unhooked VM under a suitable heap history".into());
